@@ -41,6 +41,8 @@ type CPPlan struct {
 	OptimizeOff bool     `json:"optimize_off,omitempty"`
 	Entry       string   `json:"entry"` // call | eval
 	Rich        bool     `json:"rich_fs,omitempty"`
+	Cons        bool     `json:"constraint,omitempty"` // every file starts with a satisfied //go:build line
+	PreFail     bool     `json:"pre_fail,omitempty"`   // an unrelated host call fails (two frames deep) on the same VM before the judged one
 	LeadBlank   int      `json:"lead_blank,omitempty"` // blank / whitespace-only lines before the package clause of every file
 	EOL         int      `json:"eol,omitempty"`   // line endings of the source files: 0 = LF, 1 = CRLF, 2 = CRLF on some lines
 	LibPkg      bool     `json:"lib_pkg,omitempty"` // with Split > 0: the second file is a package of its own (package shape, imported as example.com/geo/shape)
@@ -151,6 +153,15 @@ func selR(k int) any {
 func cmpLess(a int, b int) bool {
 	return a < b
 }
+func pf1(z int) int {
+	return pf2(z) + 1
+}
+func pf2(z int) int {
+	return pf3(z) + 1
+}
+func pf3(z int) int {
+	return 100 / z
+}
 `
 
 // cpRender turns the structure into source text, one statement per line, and
@@ -163,20 +174,25 @@ func cpRender(p *CPPlan) *cpRendered {
 	if p.Seed%2 == 0 {
 		lead = strings.Repeat(" \t\n", p.LeadBlank)
 	}
+	leadN := p.LeadBlank
+	if p.Cons {
+		lead = "//go:build " + []string{"goat", "goat && !linux", "!ignore"}[p.Seed%3] + "\n" + lead
+		leadN++
+	}
 	preA := cpPrelude
 	if p.LibPkg && p.Split > 0 {
 		preA = strings.Replace(preA, "import \"host\"\n", "import \"host\"\nimport \""+cpLibPath+"\"\n", 1)
 	}
 	b.WriteString(lead + preA)
-	line := p.LeadBlank + strings.Count(preA, "\n")
+	line := leadN + strings.Count(preA, "\n")
 	lineA := 0
 	curFile := "main/a.go"
 	for i, l := range strings.Split(preA, "\n") {
 		switch strings.TrimSpace(l) {
 		case "return a / b":
-			r.HelperLine["main.hdiv"] = i + 1 + p.LeadBlank
+			r.HelperLine["main.hdiv"] = i + 1 + leadN
 		case "return p.A":
-			r.HelperLine["main.hattr"] = i + 1 + p.LeadBlank
+			r.HelperLine["main.hattr"] = i + 1 + leadN
 		}
 	}
 	emit := func(s string) int {
@@ -367,16 +383,16 @@ func cpRender(p *CPPlan) *cpRendered {
 				for i, l := range strings.Split(head+body, "\n") {
 					switch strings.TrimSpace(l) {
 					case "return a / b":
-						r.HelperLine[cpLibName+".hdiv"] = i + 1 + p.LeadBlank
+						r.HelperLine[cpLibName+".hdiv"] = i + 1 + leadN
 					case "return p.A":
-						r.HelperLine[cpLibName+".hattr"] = i + 1 + p.LeadBlank
+						r.HelperLine[cpLibName+".hattr"] = i + 1 + leadN
 					}
 				}
-				line = p.LeadBlank + strings.Count(head+body, "\n")
+				line = leadN + strings.Count(head+body, "\n")
 				curFile = cpLibPath + "/b.go"
 			} else {
 				b.WriteString(lead + "package main\nimport \"host\"\nimport \"golang.org/x/exp/slices\"\n")
-				line = 3 + p.LeadBlank
+				line = 3 + leadN
 				curFile = "main/b.go"
 			}
 		}
@@ -525,6 +541,8 @@ func (e crashpoint) genPlan(r *core.PRNG) *CPPlan {
 	if r.Chance(1, 5) {
 		p.LeadBlank = 1 + r.Intn(4)
 	}
+	p.Cons = r.Chance(1, 6)
+	p.PreFail = r.Chance(1, 5)
 	p.LibPkg = p.Split > 0 && r.Chance(1, 2)
 	for i := 0; i < g.nf; i++ {
 		f := CPFunc{Method: i > 0 && r.Chance(1, 3), Variadic: i > 0 && r.Chance(1, 4)}
@@ -668,6 +686,15 @@ func (crashpoint) Execute(plan any, keep bool) *core.Result {
 	}
 	if len(p.Funcs) == 0 {
 		return finish()
+	}
+	if p.PreFail && p.PoisonAt != 0 {
+		// an earlier host call on this VM that fails three frames deep: what it leaves behind must
+		// not show up in the chain of the next failure
+		if _, perr := run.h.Call("main.pf1", 1, goatlang.Int(0)); perr == nil {
+			res.Fail("HARNESS", "generator", "prefail", "main.pf1(0) did not fail")
+			return finish()
+		}
+		res.Counters.Inc("pre_failure")
 	}
 	var err error
 	if p.Entry == "eval" {
@@ -927,6 +954,12 @@ func (crashpoint) Shrink(plan any) []func() any {
 	}
 	if p.LeadBlank != 0 {
 		mod(func(q *CPPlan) { q.LeadBlank = 0 })
+	}
+	if p.Cons {
+		mod(func(q *CPPlan) { q.Cons = false })
+	}
+	if p.PreFail {
+		mod(func(q *CPPlan) { q.PreFail = false })
 	}
 	if p.LibPkg {
 		mod(func(q *CPPlan) { q.LibPkg = false })
